@@ -24,8 +24,8 @@ PID = "C02"
 PARALLEL = 8
 IMPORTS = "From Verif Require Import C02.Model C02.Spec C02.Corr.\nFrom VerifGen Require Import C02Base."
 CASE_TYPE = "C02.Corr.group"
-RUNNER = {"v0": "C02.Corr.run_v0", "v1": "C02.Corr.run_v1"}.get(os.environ.get("VERIF_C02_MODEL"), "C02.Corr.run")
-FINDING_CLASSES = {1: "C02-F1", 2: "C02-F2", 3: "C02-F3", 4: "C02-F4"}   # 1-3 fixed: a case in one of them is a VIOLATION; 4 open
+RUNNER = {"v0": "C02.Corr.run_v0", "v1": "C02.Corr.run_v1", "v2": "C02.Corr.run_v2"}.get(os.environ.get("VERIF_C02_MODEL"), "C02.Corr.run")
+FINDING_CLASSES = {1: "C02-F1", 2: "C02-F2", 3: "C02-F3", 4: "C02-F4"}   # all fixed: a case in any class is a VIOLATION
 RULE = ("documents derived from genuinely signed Responses (Response-signed, assertion-signed, both; plain and "
         "encrypted; two messages, three key pairs, alternative algorithms): complete catalogue = XSW placements "
         "(sibling before/after, Extensions, Advice, ds:Object, SubjectConfirmationData, AttributeValue, StatusDetail; "
@@ -67,8 +67,8 @@ TRUSTED = ["xmlsec1 stand-in (harness/standin/xmlsec1.py: xmlSecFindNode = first
            "translator v2 (harness/py2coq2.py, Base/Py2.v; its not-modelled list: notes/translator_v2.md) re-translates on every "
            "run: response.StatusResponse.issuer, sigver.SecurityContext.correctly_signed_response, "
            "sigver.CryptoBackendXmlSec1.validate_signature, response.AuthnResponse._assertion and the validator block of "
-           "sigver.SecurityContext._check_signature and the assertion-count test of response.AuthnResponse.parse_assertion "
-           "(its first statement, cut out by harness/c02.py slice_count; validators: cut out by slice_validators: from "
+           "sigver.SecurityContext._check_signature and the two assertion-count tests of response.AuthnResponse.parse_assertion "
+           "(its first statement, cut out by harness/c02.py slice_count, and the test added by 6a3bb24f, slice_one; validators: cut out by slice_validators: from "
            "`signed_info = item.signature.signed_info` to the `raise SignatureError(error_context)`; the cutting rule is "
            "trusted) - C02/Source2.v proves each equal to what the model says, for all inputs; the encodings of parsed "
            "objects (enc_item ... in C02/Source2.v) are trusted to be what the object model builds (that is C12 / the "
@@ -892,6 +892,41 @@ def slice_count():
     return out
 
 
+def slice_one():
+    """The test added by 6a3bb24f to AuthnResponse.parse_assertion as a function of its own, cut out of the CURRENT source
+    text on every run: the one `if` statement of the method whose test reads both len(self.assertions) and
+    self.response.signature (`if self.context != "AuthnQuery" and len(self.assertions) > 1 and not self.response.signature:
+    raise InvalidAssertion(...)`).  Not found / found more than once: the file holds no function (poisoned definition)."""
+    import ast
+    import textwrap
+
+    path = os.path.join(env.SRC, "saml2", "response.py")
+    out = os.path.join(SLICE_DIR, "response_parse_assertion_one.py")
+    os.makedirs(SLICE_DIR, exist_ok=True)
+    text = "# slice not found\n"
+    try:
+        with open(path) as f:
+            src = f.read()
+        from harness import py2coq2
+
+        fn = py2coq2.find_function(ast.parse(src), "AuthnResponse.parse_assertion")
+        hits = []
+        for st in ast.walk(fn):
+            if isinstance(st, ast.If):
+                t = ast.unparse(st.test)
+                if "len(self.assertions)" in t and "self.response.signature" in t:
+                    hits.append(st)
+        if len(hits) == 1:
+            st = hits[0]
+            lines = textwrap.dedent("\n".join(src.splitlines()[st.lineno - 1:st.end_lineno]))
+            text = ("# cut from saml2/response.py AuthnResponse.parse_assertion, lines %d-%d\n"
+                    "def parse_assertion__one(self):\n%s\n" % (st.lineno, st.end_lineno, textwrap.indent(lines, "    ")))
+    except Exception as e:  # fail closed
+        text = "# slice failed: %s\n" % type(e).__name__
+    common.write_if_changed(out, text)
+    return out
+
+
 def src2_items():
     S = os.path.join(env.SRC, "saml2")
     cn = lambda a: '(p2_attr_x %s "c_node_name")' % a[0]           # class_name(x): the node name of the instance's class
@@ -934,6 +969,9 @@ def src2_items():
           "calls": {"ALLOWED_TRANSFORMS.intersection": lambda a: "(p2_listcomp allowed_transforms (fun x_ => p2_in x_ %s) (fun x_ => x_))" % a[0]}}),
         (slice_count(), "parse_assertion__count",
          {"name": "src2_count", "params": ["self"], "attr_errors": True, "lenient_raise_args": True,
+          "exc_parents": dict(SRC2_EXC, InvalidAssertion=["Exception"])}),
+        (slice_one(), "parse_assertion__one",
+         {"name": "src2_one", "params": ["self"], "attr_errors": True, "lenient_raise_args": True,
           "exc_parents": dict(SRC2_EXC, InvalidAssertion=["Exception"])}),
     ]
 
